@@ -297,19 +297,22 @@ pub open spec fn opt_skip(o: Option<&Opts>) -> bool { match o { Some(x) => x.ski
 			state.game.hash is None,
 		ensures r.inv(), !r.hit_eof(),
 		decreases r.rest().len(),
-//@before if state.game.start.slippi.version.lt(3, 0)
+//@before if state.game.start.slippi.version.lt(
 	let ghost pre_close = state;
-//@afterblock if state.game.start.slippi.version.lt(3, 0)
+//@afterblock if state.game.start.slippi.version.lt(
 	proof {
 		// C04: before 3.0 nothing closes the last frame but the end of the stream: afterwards every column has one entry per frame row
 		assert((all_closable(&pre_close) && (ver(&pre_close).ge(3, 0) ==> rows_level(&pre_close))) ==> rows_level(&state)) /*[C04.last_frame_closed_at_end_of_stream]*/;
 	}
 //@before match r.read_u8()
+	let ghost tail0 = r.rest();
 	proof { assert(!r.hit_eof()) /*[C07.no_eof_swallowed_before_tail]*/; }
 //@before state.game.hash =
 	proof {
 		assert(!r.hit_eof()) /*[C07.ok_only_without_eof]*/;
 		assert(r.consumed().len() > 0 && r.consumed().last() == 0x7du8) /*[C07.ok_only_after_closing_brace]*/;
+		// with a metadata element the map's own closing brace does not count: the TOP-LEVEL brace must have been consumed after it
+		assert(tail0.len() >= 1 && tail0[0] == 0x55u8 ==> r.consumed().len() >= 2 && r.consumed()[r.consumed().len() - 2] == 0x7du8) /*[C07.top_level_brace_after_metadata]*/;
 		assert(r.stable() == hash) /*[C11.hasher_alive_iff_requested]*/;
 	}
 //@end
